@@ -18,7 +18,7 @@ from . import _generic as g
 
 PROP = "C07"
 CLASSES = {"int-status-key-drops-operation": "F16", "yaml-int-status-key": "F16",
-           "empty-operation-id-drops-operation": "F44", "duplicate-tag-same-client": "F45"}
+           "empty-operation-id-drops-operation": "F44"}
 
 
 def case_fn(case: dict, d):
